@@ -212,12 +212,12 @@ U("c02_closure_deflist", ["C02"], "h_deflist", ["C02/deflist.c"], ["mmd.c"], pla
 # ---- the BLOCK_TABLE arm: the following paragraph is skipped iff it was rendered as the caption
 for _s, _fn, _tree, _file in (("html", "mmd_export_token_html", "mmd_export_token_tree_html", "html.c"), ("latex", "mmd_export_token_latex", "mmd_export_token_tree_latex", "latex.c"),
                               ("opendocument", "mmd_export_token_opendocument", "mmd_export_token_tree_opendocument", "opendocument-content.c")):
-    U("c02_table_caption_" + _s, (["C02", "C10"] if _s == "html" else ["C02"]), "h_table", ["C02/table_caption.c"], [_file], plain=True, lib=(), kind="bounded", drop_bodies=[_tree],
+    U("c02_table_caption_" + _s, ["C02", "C10"], "h_table", ["C02/table_caption.c"], [_file], plain=True, lib=(), kind="bounded", drop_bodies=[_tree],
       defines=["-DI18N_DISABLED=1", "-DW=" + _fn, "-DTREE=" + _tree] + (["-DEXPECT_ID"] if _s == "html" else []),
       pre_instrument=["--remove-function-body-regex", "^(?!%s$|%s$|h_table$|mk$|table_has_caption$|label_from_token$|read_table_column_alignments$|d_string_append_printf$|verif_.*$|__CPROVER.*$).*" % (_fn, _tree),
                       "--generate-function-body", "^(?!__CPROVER_|malloc$|free$|verif_).*$", "--generate-function-body-options", "nondet-return"],
       cbmc_flags=["--object-bits", "12", "--unwind", "5", "--unwinding-assertions"], checks=["--no-standard-checks"],
-      bounds={"token type": "BLOCK_TABLE (constant)", "following paragraph": "one or two bracket pairs", "columns<=": 2},
+      bounds={"token type": "BLOCK_TABLE (constant)", "following paragraph": "[caption], [caption][label] or [caption] [label]", "columns<=": 2},
       functions=[_fn + " (arm BLOCK_TABLE)"],
       callees={"table_has_caption": "contract stub: any answer", _tree: "contract stub recording the chain it is given", "read_table_column_alignments, label_from_token": "contract stubs", "every other callee": "body removed, nondet return value"},
       min_obligations=3, timeout=300, cost=10, assumptions=[NOFAIL, "configuration -DI18N_DISABLED", "memory safety of the arm is not claimed by this unit (standard checks off: callees are havocked)"])
